@@ -1404,6 +1404,11 @@ orc_compiler_get_constant (OrcCompiler *compiler, int size, int value)
     }
   }
   if (i == compiler->n_constants) {
+    if (compiler->n_constants >= ORC_N_CONSTANTS) {
+      orc_compiler_error (compiler, "too many constants");
+      compiler->result = ORC_COMPILE_RESULT_UNKNOWN_COMPILE;
+      return ORC_REG_INVALID;
+    }
     compiler->n_constants++;
     compiler->constants[i].value = v;
     compiler->constants[i].alloc_reg = 0;
@@ -1452,6 +1457,11 @@ orc_compiler_try_get_constant_long (OrcCompiler *compiler,
     }
   }
   if (i == compiler->n_constants) {
+    if (compiler->n_constants >= ORC_N_CONSTANTS) {
+      orc_compiler_error (compiler, "too many constants");
+      compiler->result = ORC_COMPILE_RESULT_UNKNOWN_COMPILE;
+      return ORC_REG_INVALID;
+    }
     compiler->n_constants++;
     compiler->constants[i].full_value[0] = a;
     compiler->constants[i].full_value[1] = b;
